@@ -3,7 +3,7 @@
    current /repo sources (coq/Gen/Gen_C10_schemas.v), so every theorem mentioning them is re-checked
    against what dump_raw / read_raw / Serialize / Deserialize say now. *)
 From Coq Require Import String List ZArith QArith.
-Require Import IPV.C10.Raw IPV.C10.RawSpec IPV.C10.RawProofs IPV.C10.RawLevels IPV.C10.Serial IPV.C10.Copy IPV.C10.Extra IPV.C10.MergeRedox IPV.C10.RawFinal.
+Require Import IPV.C10.Raw IPV.C10.RawSpec IPV.C10.RawProofs IPV.C10.RawLevels IPV.C10.Serial IPV.C10.Copy IPV.C10.Extra IPV.C10.MergeRedox IPV.C10.NdRow IPV.C10.RawFinal.
 Require Import IPV.Gen.Gen_C10_schemas.
 Import ListNotations.
 Open Scope string_scope.
@@ -153,3 +153,14 @@ Theorem merge_redox_valence_state :
     /\ (redox_elt_name k pos <> k -> lookup (redox_elt_name k pos) (merge1 m (k, v)) = None).
 Proof. exact merge_redox_state. Qed.
 Print Assumptions merge_redox_valence_state.
+
+(* cxxNameDouble::dump_raw (every name/value row of the RAW text; model tied by correspondence with
+   harness/c10_nd.cpp): for every name of ANY length and every value, both without blanks, the written row
+   tokenises back to exactly [name; value] -- there is always a separator between them *)
+Theorem name_value_row_tokenises :
+  forall indent name value,
+    (2 * indent <= 29)%nat ->
+    no_blank name = true -> no_blank value = true -> name <> "" -> value <> "" ->
+    tokens (nd_row indent name value) = [name; value].
+Proof. exact nd_row_tokens. Qed.
+Print Assumptions name_value_row_tokenises.
